@@ -276,7 +276,10 @@ def run(ctx):
             one_char = logic.entails(st, ("a", "(%s.size() == 1)" % pn), lg.axioms)[0] is True
             same = (logic.entails(st, ("a", "(%s == this.short_)" % pn), lg.axioms)[0] is True or logic.entails(st, ("a", "(this.short_ == %s)" % pn), lg.axioms)[0] is True) \
                 and logic.entails(st, Not(("a", "this.short_.empty()")), lg.axioms)[0] is True
-            ctx.check(one_char or same, "R13.3", f, "accepts-only-one-character", "short_name() can return normally for an argument whose length was never tested (path facts: %s): a short name that is not one character - the empty string - is accepted"
+            # ... or the return lies behind the guarded assignment itself (whose one-character guard is the obligation above): when the setter takes
+            # its argument by value and moves it into the member, nothing is known about the moved-from argument any more at the return
+            via_write = bool(ws) and cfg.reaches_without(f, (f.entry, -1), lambda x, e=e: x is e, lambda x: any(x is w[2] for w in ws)) is None
+            ctx.check(one_char or same or via_write, "R13.3", f, "accepts-only-one-character", "short_name() can return normally for an argument whose length was never tested (path facts: %s): a short name that is not one character - the empty string - is accepted"
                       % sorted(logic.show(g) for g in st)[:4], (f, e.get("ln")))
         ctx.need("R13.3", "normal returns of short_name in " + (f.cls or ""), nret, 1)
         excs = [exc for b in IN if f.is_noreturn(b) for _, exc, _ in C04.raise_nodes(f, b)]
